@@ -7,9 +7,6 @@ namespace Calc
 
 variable {S : Type} [Add S] [Sub S] [Mul S] [Div S] [Zero S] [One S] [Kernel S]
 
-/-- an evaluator that returns the table it was handed -/
-def Evaluator.Pure (ev : Evaluator S) : Prop := ∀ e env, (ev e env).env = env
-
 omit [Add S] [Sub S] [Mul S] [Div S] [Zero S] [One S] [Kernel S] in
 theorem evalList_env (ev : Evaluator S) (h : ∀ e env, (ev e env).env = env) :
     ∀ es env, (evalList ev es env).2 = env := by
